@@ -1331,7 +1331,7 @@ Qed.
 Definition f18_spec (refresh : list scmd) : screen_spec :=
   {| sc_setup := []; sc_refresh := refresh; sc_show := []; sc_closed := []; sc_input := [];
      sc_input_default := ([], Some RClose); sc_prompt_none := false; sc_input_required := true;
-     sc_no_separator := false; sc_skip_check := false; sc_pages := 0; sc_answer0 := AnsNoAttr; sc_custom := [] |}.
+     sc_no_separator := false; sc_skip_check := false; sc_pages := 0; sc_answer0 := AnsNoAttr; sc_custom := []; sc_setup_cmds := [] |}.
 Definition f18_specl : list screen_spec :=
   [f18_spec [SIfCount 1 [SRedrawSig] [SIfCount 2 [SRedrawSig; SSetInputRequired false] [SPushModal 1 0]]]; f18_spec []].
 Definition f18_typed : list (option str) := [Some [49%N]; Some [50%N]].
